@@ -366,6 +366,42 @@ theorem mergeMapped_spec (C : Compression) (K : Nat) (hK : 1 ≤ K) (bs : Nat) :
           congr 1
           simp [List.map_set]
 
+/-! ### `has_deletes()` of a reader with a custom alive bitset -/
+
+theorem numAlive_le (alive : Nat → Bool) (n : Nat) : numAlive alive n ≤ n := by
+  unfold numAlive
+  have := List.length_filter_le alive (List.range n)
+  simpa using this
+
+/-- `has_deletes() = false` means every document below `max_doc` is alive in the intersected set -/
+theorem no_deletes_all_alive (alive : Nat → Bool) (n : Nat)
+    (h : decide (n - numAlive alive n > 0) = false) : ∀ i, i < n → alive i = true := by
+  have hle := numAlive_le alive n
+  have heq : numAlive alive n = n := by
+    have : ¬ (n - numAlive alive n > 0) := by simpa using h
+    omega
+  unfold numAlive at heq
+  have hall : ∀ a ∈ List.range n, alive a = true := by
+    have : ((List.range n).filter alive).length = (List.range n).length := by simpa using heq
+    exact List.length_filter_eq_length_iff.mp this
+  intro i hi
+  exact hall i (List.mem_range.mpr hi)
+
+/-- the segment the merger sees for a store holding `docs`, with the segment's own deletes and a
+caller-supplied filter, satisfies the assumptions of the merge theorem by construction -/
+theorem segOK_ofReader (C : Compression) (P bs : Nat) (store : StoreFile) (codec : Compression)
+    (own custom : Option (Nat → Bool)) (docs : List Bytes)
+    (hholds : Holds codec P store docs) (hrt : ∀ b, codec.decomp (codec.comp b) = some b)
+    (hne : docs ≠ []) (hdocs : ∀ d ∈ docs, d ≠ [] ∧ bs + d.length < 4294967296)
+    (hcodec : store.decompId = C.id → codec = C) :
+    SegOK C P bs (SourceSegment.ofReader store codec own custom docs.length) docs :=
+  { holds := hholds
+    codecRt := hrt
+    nonempty := hne
+    docsOk := hdocs
+    noDeletes := fun h => no_deletes_all_alive _ _ h
+    sameCodec := hcodec }
+
 /-! ### any mix of fetches and iterations through the cache -/
 
 theorem runOps_spec (Adm : Checkpoint → Prop) (hk : KeyDetOn Adm) (C : Compression) (sf : StoreFile)
